@@ -42,9 +42,8 @@ inductive FK where
   | ttl                    -- `get_ttl`, printed in decimal
   | name                   -- `get_name(origin, relativize, relativize_to)`
   | cstr (maxTok : Option Nat) (maxBytes : Option Nat) (quoted : Bool)
-                           -- `get_string(max_length)` → code points → `.encode()` → `_as_bytes(…, max)`;
-                           -- printed `"…"` (or bare) through `_escapify`
-  | uriTarget              -- URI: `tok.get().unescape()`; printed `"{target.decode()}"` without escaping
+                           -- `get_string_as_bytes(max_length)` (octet path, `fix:` commit 6aa8f9c; URI: 210fbe5)
+                           -- → `_as_bytes(…, max)`; printed `"…"` (or bare) through `_escapify`
   | ip4                    -- `get_identifier` → `dns.ipv4.canonicalize`
   | ip6
   | algo                   -- `get_string` → `Algorithm.make` (mnemonic or number); printed as a number
@@ -69,34 +68,6 @@ structure Schema where
 
 /-! ## printing -/
 
-/-- `str.decode()` of UTF-8 (strict): `none` = UnicodeDecodeError -/
-def utf8Decode : Bytes → Option (List Nat)
-  | [] => some []
-  | a :: rest =>
-    if a < 0x80 then (utf8Decode rest).map (a :: ·)
-    else if 0xC2 ≤ a ∧ a < 0xE0 then
-      match rest with
-      | b :: rest' =>
-        if 0x80 ≤ b ∧ b < 0xC0 then (utf8Decode rest').map (((a - 0xC0) * 64 + (b - 0x80)) :: ·) else none
-      | _ => none
-    else if 0xE0 ≤ a ∧ a < 0xF0 then
-      match rest with
-      | b :: c :: rest' =>
-        let cp := (a - 0xE0) * 4096 + (b - 0x80) * 64 + (c - 0x80)
-        if 0x80 ≤ b ∧ b < 0xC0 ∧ 0x80 ≤ c ∧ c < 0xC0 ∧ 0x800 ≤ cp ∧ ¬ (0xD800 ≤ cp ∧ cp < 0xE000) then
-          (utf8Decode rest').map (cp :: ·)
-        else none
-      | _ => none
-    else if 0xF0 ≤ a ∧ a < 0xF5 then
-      match rest with
-      | b :: c :: d :: rest' =>
-        let cp := (a - 0xF0) * 262144 + (b - 0x80) * 4096 + (c - 0x80) * 64 + (d - 0x80)
-        if 0x80 ≤ b ∧ b < 0xC0 ∧ 0x80 ≤ c ∧ c < 0xC0 ∧ 0x80 ≤ d ∧ d < 0xC0 ∧ 0x10000 ≤ cp ∧ cp < 0x110000 then
-          (utf8Decode rest').map (cp :: ·)
-        else none
-      | _ => none
-    else none
-
 /-- `{:o}` -/
 def natToOct (n : Nat) : List Nat :=
   if n < 8 then [48 + n] else natToOct (n / 8) ++ [48 + n % 8]
@@ -113,7 +84,6 @@ def printField (st : Style) : FK → FV → Option Text
     | .ok t => some t
     | .error _ => none
   | .cstr _ _ q, .b s => some (if q then quote (escapifyR s) else escapifyR s)
-  | .uriTarget, .b s => (utf8Decode s).map quote
   | .ip4, .b a => ip4Ntoa a
   | .ip6, .b a => ip6Ntoa a
   | .algo, .n v => some (natToDec v)
@@ -156,13 +126,28 @@ def algoFromText (s : List Nat) : Option Nat :=
   | some v => some v
   | none => if !u.isEmpty && u.all isDigit then (let v := decVal u; if v ≤ 255 then some v else none) else none
 
-/-- `tok.get_string(max_length)`: unescaped code points of an identifier or quoted string -/
+/-- `tok.get_string(max_length)`: unescaped *code points* of an identifier or quoted string (still used by GPOS,
+NSEC3PARAM's salt, mnemonics …; the character-string fields moved to `asStringBytes`) -/
 def asString (maxTok : Option Nat) (t : Tok) : Option (List Nat) :=
   match unescapeCP t.val with
   | none => none
   | some v => match maxTok with
     | some m => if m ≠ 0 ∧ v.length > m then none else some v
     | none => some v
+
+/-- `tok.get_string_as_bytes(max_length)`: `\DDD` is an octet; the length limit counts octets -/
+def asStringBytes (maxTok : Option Nat) (t : Tok) : Option Bytes :=
+  match unescapeBytes t.val with
+  | none => none
+  | some v => match maxTok with
+    | some m => if m ≠ 0 ∧ v.length > m then none else some v
+    | none => some v
+
+/-- `_as_bytes(value, True, max)` of a bytes value -/
+def bytesMax (maxBytes : Option Nat) (b : Bytes) : Option Bytes :=
+  match maxBytes with
+  | some m => if b.length > m then none else some b
+  | none => some b
 
 /-- `_as_bytes(value, True, max)` of a str -/
 def encodeMax (maxBytes : Option Nat) (v : List Nat) : Option Bytes :=
@@ -177,13 +162,8 @@ def parseField (env : PEnv) : FK → Tok → Option FV
   | .oct16, t => (asUint 8 65535 t).map .n
   | .ttl, t => (asTtl t).map .n
   | .name, t => (asName t env.origin env.relativize env.relTo).map .nm
-  | .cstr maxTok maxBytes _, t => match asString maxTok t with
-    | some v => (encodeMax maxBytes v).map .b
-    | none => none
-  | .uriTarget, t => match unescapeCP t.val with
-    | some v => match utf8Encode v with
-      | some b => if b = [] then none else some (.b b)
-      | none => none
+  | .cstr maxTok maxBytes _, t => match asStringBytes maxTok t with
+    | some v => (bytesMax maxBytes v).map .b
     | none => none
   | .ip4, t => if t.kind ≠ .ident then none else match unescapeCP t.val with
     | some v => (ip4Aton v).map .b
@@ -227,8 +207,8 @@ def parseTail : TK → List Tok → Option (Option FV)
     | none => none
   | .optCstr, toks => match toks with
     | [] => some (some (.b []))
-    | [t] => match unescapeCP t.val with
-      | some v => (encodeMax (some 255) v).map fun b => some (.b b)
+    | [t] => match unescapeBytes t.val with
+      | some v => (bytesMax (some 255) v).map fun b => some (.b b)
       | none => none
     | _ => none
 
@@ -264,6 +244,11 @@ def caaCheck : List FV → Option FV → Bool
   | [_, .b tag, _], none => !tag.isEmpty && tag.all isAlnumC
   | _, _ => false
 
+/-- URI: the target must not be empty -/
+def uriCheck : List FV → Option FV → Bool
+  | [_, _, .b target], none => !target.isEmpty
+  | _, _ => false
+
 def u8 := FK.uint 255
 def u16 := FK.uint 65535
 def u32 := FK.uint 4294967295
@@ -284,7 +269,7 @@ def schemaOf : String → Option Schema
   | "NAPTR" => some ⟨[u16, u16, .cstr none (some 255) true, .cstr none (some 255) true, .cstr none (some 255) true, .name],
       .none, noCheck, true⟩
   | "CAA" => some ⟨[u8, .cstr none (some 255) false, .cstr none none true], .none, caaCheck, true⟩
-  | "URI" => some ⟨[u16, u16, .uriTarget], .none, noCheck, true⟩
+  | "URI" => some ⟨[u16, u16, .cstr none none true], .none, uriCheck, true⟩
   | "DS" | "DLV" => some ⟨[u16, .algo, u8], .hex, dsCheck ConstsC05.dsDigestLen, true⟩
   | "CDS" => some ⟨[u16, .algo, u8], .hex, dsCheck ConstsC05.cdsDigestLen, true⟩
   | "TLSA" | "SMIMEA" => some ⟨[u8, u8, u8], .hex, noCheck, true⟩
@@ -321,7 +306,6 @@ def encField : FK → FV → Option Bytes
   | .ttl, .n v => some (beBytes 4 v)
   | .name, .nm n => if isAbs n then some (toWire n) else none
   | .cstr _ _ _, .b s => some (s.length :: s)
-  | .uriTarget, .b s => some s
   | .ip4, .b a => some a
   | .ip6, .b a => some a
   | .algo, .n v => some [v]
@@ -390,7 +374,6 @@ def decFields (tname : String) (w : Bytes) (origin : Option Name) : Nat → Nat 
       | .salt => match w[cur]? with
           | some l => if cur + 1 + l ≤ w.length then some (.b ((w.drop (cur + 1)).take l), cur + 1 + l) else none
           | none => none
-      | .uriTarget => if cur < w.length then some (.b (w.drop cur), w.length) else none
       | .ip4 => -- `parser.get_remaining()` then `inet_ntoa` needs exactly 4 octets
         if w.length - cur = 4 ∧ cur ≤ w.length then some (.b (w.drop cur), w.length) else none
       | .ip6 => if w.length - cur = 16 ∧ cur ≤ w.length then some (.b (w.drop cur), w.length) else none
